@@ -42,7 +42,7 @@ RULE = ("well-formed templates from a grammar-directed generator (text runs incl
         "triple-quoted strings and long trailing whitespace, def/block/call/page/include/namespace/inherit/text tags "
         "single- and multi-line with attribute values spanning lines, ## and <%doc> comments; LF or CRLF; leading blank "
         "lines) into which exactly ONE fault is planted at every candidate site: a Python syntax error at every binary "
-        "operator of every code line of every construct (10 construct kinds), 29 structural fault classes (one or more per raise site of SyntaxException / CompileException in lexer, "
+        "operator of every code line of every construct (10 construct kinds), 30 structural fault classes (one or more per raise site of SyntaxException / CompileException in lexer, "
         "parsetree, codegen, pyparser, ast - the site table is regenerated and checked against the generator) and 6 classes of "
         "faults that only the compilation of the generated module finds, at every "
         "tag / control block / line gap; a case is distinct by (source text, fault); non-trivial = the fault is not on "
@@ -55,6 +55,9 @@ ASSUMPTIONS = [
     "a control line construct (`% …`) begins at the start of its line (the lexer's regex includes the indentation), so "
     "its column is 1",
     "a template given as a string has no file name: filename None is accepted on the string path",
+    "Python nested deeper than mako's identifier visitors can recurse (a `+` chain of 700 operands at the default "
+    "recursion limit of 1000, which the check sets for its run) is reported where the construct begins - the "
+    "SyntaxException of pyparser.visit carries the node's coordinates and no line of its own",
     "`from m import *` in a block is not a syntax error but an unsupported construct: its ground truth is where the "
     "block begins (the coordinates every constructor-level fault carries), not the line of the import statement",
     "reload paths: the edited file gets an mtime 60 s in the future (os.utime), so that the lookup's whole-second "
@@ -91,7 +94,10 @@ SITE_GROUP = {"unterminated-expr": "unterminated-construct", "unterminated-filte
 ATTR_LABELS = ("sigdef", "sigargs", "attrexpr", "callexpr", "dummyargs", "arglist")
 SYNTAX_EXC_CLASSES = {"python", "unterminated-expr", "unterminated-filter", "unterminated-block", "unclosed-tag",
                       "unclosed-text-tag", "closing-without-opening", "closing-mismatch", "invalid-control-line",
-                      "no-starting-keyword", "keyword-mismatch", "illegal-ternary", "unterminated-control"}
+                      "no-starting-keyword", "keyword-mismatch", "illegal-ternary", "unterminated-control", "deep-nesting"}
+# deep nesting in the default values of args="…" (block / page / call) is not analysed by any identifier visitor; it
+# reaches FunctionDecl.get_argument_expressions' re-emission during code generation
+DEEP_ESCAPES = ("sigargs",)
 
 # --------------------------------------------------------------------------------------------- the implementation
 
@@ -289,6 +295,9 @@ def check_fields(f, d, expected_filename, path_kind):
             return [("module-compile-error-escapes-as-bare-syntaxerror",
                      "%s: %s (line %s of the generated module)" % (d["cls"], d["msg"][:120], d["lineno"]),
                      {"escaped": d["cls"]})]
+        if f["cls"] == "deep-nesting" and f.get("label") in DEEP_ESCAPES and d["cls"] == "builtins.RecursionError":
+            return [("deep-nesting-in-args-default-escapes-as-bare-recursionerror",
+                     "%s: %s" % (d["cls"], d["msg"][:120]), {"escaped": d["cls"]})]
         return [("foreign-exception:" + f["cls"], "%s: %s" % (d["cls"], d["msg"][:200]), {"escaped": d["cls"]})]
     want_cls = "exceptions.SyntaxException" if f["cls"] in SYNTAX_EXC_CLASSES else "exceptions.CompileException"
     tl, tc = f["line"], f["construct"]["col"]
@@ -457,7 +466,7 @@ def model_requests(f, d):
         reqs.append(("tok", "errpos tok %s %d" % (s, i)))
     elif cls in LEXER_CLASSES:
         reqs.append(("struct", "errpos struct %s" % s))
-    elif cls in CODEGEN_CLASSES:
+    elif cls in CODEGEN_CLASSES or cls == "deep-nesting":
         reqs.append(("tokat", "errpos tokat %s %d" % (s, f["construct"]["off"])))
         reqs.append(("struct", "errpos struct %s" % s))
     elif cls == "module-level":
@@ -585,11 +594,15 @@ def compare_model(ctx, f, d, answers):
             elif (int(a[5]), int(a[6])) != (f["construct"]["line"], f["construct"]["col"]):
                 out.append(("lineOf-colOf-vs-ground-truth", a[4:], f["construct"]))
             ctx.branch("model-lexer-kind:" + kind)
-    elif cls in CODEGEN_CLASSES:
+    elif cls in CODEGEN_CLASSES or cls == "deep-nesting":
         a = answers["tokat"].split(" ")
+        want_cls = "exceptions.SyntaxException" if cls in SYNTAX_EXC_CLASSES else "exceptions.CompileException"
         if a[0] == "none":
             out.append(("codegen-node", "no token at offset %d" % f["construct"]["off"], impl_pos))
-        elif not (d["cls"] == "exceptions.CompileException" and (d["lineno"], d["pos"]) == (int(a[3]), int(a[4]))):
+        elif cls == "deep-nesting" and f.get("label") in DEEP_ESCAPES:
+            if d.get("mako"):
+                out.append(("deep-nesting-in-args-default", "escapes (no identifier visitor looks at it)", impl_pos))
+        elif not (d["cls"] == want_cls and (d["lineno"], d["pos"]) == (int(a[3]), int(a[4]))):
             out.append(("codegen-node", answers["tokat"], impl_pos))
         if answers["struct"] != "ok":
             out.append(("codegen-fault-lexes", answers["struct"], "ok"))
@@ -616,6 +629,15 @@ def compare_model(ctx, f, d, answers):
 
 # --------------------------------------------------------------------------------------------- case production
 
+def _one_per_label(fs, rng, cap):
+    by = {}
+    for f in fs:
+        by.setdefault(f.get("label"), []).append(f)
+    labels = sorted(by)
+    rng.shuffle(labels)
+    return [rng.choice(by[l]) for l in labels[:cap]]
+
+
 def gen_cases(ctx, nbases, per_base, seed_base):
     """-> list of fault dicts (with 'base' index)"""
     import random
@@ -634,7 +656,8 @@ def gen_cases(ctx, nbases, per_base, seed_base):
             continue
         ctx.branch("base:nl=%s" % ("CRLF" if base.nl == "\r\n" else "LF"))
         ctx.branch("base:leading-blank-lines" if base.src.startswith(("\n", "\r\n", "  \n", "  \r\n")) else "base:no-leading-blank")
-        groups = [G.python_faults(base), G.structural_faults(base, rng) + G.module_level_faults(base, rng)]
+        groups = [G.python_faults(base), G.structural_faults(base, rng) + G.module_level_faults(base, rng),
+                  _one_per_label(G.deep_nesting_faults(base, rng), rng, 5 if per_base else 10)]
         fs = []
         for grp in groups:
             if per_base and len(grp) > per_base:
@@ -874,6 +897,11 @@ def witness_cases():
     W.append({"cls": "namespace-file-and-module", "src": s, "construct": G._truth(s, s.index("<%namespace")), "line": 2})
     s = "one\ntwo\n   <%\n      v0 = 1\n      from os import *\n%>\n"
     W.append({"cls": "import-star", "src": s, "construct": G._truth(s, s.index("<%")), "line": 3})
+    deep = "+ " + "a + " * G.DEEP_TERMS
+    s = "one\n\n   ${ (x\n " + deep + "y) | h}\n"
+    W.append({"cls": "deep-nesting", "label": "expr", "src": s, "construct": G._truth(s, s.index("${")), "line": 3})
+    s = "one\n  <%block name='bw'\n     args=\"q, r=1 " + deep.replace("a", "2") + "3\">b</%block>\n"
+    W.append({"cls": "deep-nesting", "label": "sigargs", "src": s, "construct": G._truth(s, s.index("<%block")), "line": 2})
     for sub, s, off in [("expr-trailing-comment", "t\n${x # c}", 2), ("block-break-outside-loop", "t\n  <% break %>", 4),
                         ("module-block-return", "<%! return %>", 0)]:
         W.append({"cls": "module-level", "sub": sub, "src": s, "construct": G._truth(s, off), "line": G.line_of(s, off)})
@@ -881,7 +909,9 @@ def witness_cases():
 
 
 def run(ctx):
-    sys.setrecursionlimit(10000)
+    # (the deep-nesting faults rely on the interpreter's recursion limit: run at the default, whatever the caller set)
+    old_limit = sys.getrecursionlimit()
+    sys.setrecursionlimit(1000)
     impl = Impl()
     try:
         ws = witness_cases()
@@ -894,7 +924,7 @@ def run(ctx):
             plan = [(80, 30, 1)]
             path_every, display_every, pulled_every = 11, 41, 53
         else:
-            plan = [(50, 0, 1), (360, 40, 2)]
+            plan = [(40, 0, 1), (300, 40, 2)]
             path_every, display_every, pulled_every = 3, 17, 19
         for nbases, per_base, sb in plan:
             cases = gen_cases(ctx, nbases, per_base, sb)
@@ -908,6 +938,7 @@ def run(ctx):
         ctx.log("violation sites: " + ", ".join("%s=%d" % (k[10:], v) for k, v in sorted(ctx.branches.items())
                                                 if k.startswith("violation:")))
     finally:
+        sys.setrecursionlimit(old_limit)
         impl.close()
 
 
